@@ -25,6 +25,9 @@ def implicit_partials(comp, inputs, outputs):
         data = prob.check_partials(out_stream=None, compact_print=True)
     d = data["comp"]
     J = {}
+    # (OpenMDAO's own forward differences with an absolute step of 1e-6 are useless here - stiffness entries are
+    # 1e9 - so no finite-difference record is made for the implicit residuals: they are bilinear, the exact dual
+    # comparison of the stream is the check, and C02 differences the converged solution)
     for (of, wrt), rec in d.items():
         J[(of, wrt)] = np.atleast_2d(np.asarray(rec["J_fwd"]))
     return vals, J
@@ -83,7 +86,7 @@ def stream_element_jac(R, tier, seed):
             loads = rng.normal(size=(ny, 6)) * np.array([1e3, 1e3, 1e4, 1e3, 1e3, 1e3])
             # the Jacobian is compared off the documented non-smooth region |load| < 1e-6 (there the code zeroes the value
             # while reporting slope 1; the value stream covers that region, C01's statement exempts it)
-            loads[0, 0] = 2e-6; loads[-1, 4] = -1.5e-6
+            loads[0, 0] = 3.0; loads[-1, 4] = -0.5
             o, J, _ = core.run_comp(CreateRHS(surface=surf), {"total_loads": loads})
             D = DJ().lit("n", nat(6 * ny + 6)).lit("ny", nat(ny)).inp("loads", loads, "total_loads")
             je, jl = D.jac_errs("T1 {n} (create_rhs {ny} {loads})", J, ["forces"])
